@@ -58,6 +58,7 @@ func (p *Program) connLoops() []*ConnLoop {
 		}
 		// the handle call: a call in repo taking (the stripped) message result of Next
 		writers := p.connWriters()
+		handleScore := 0
 		allInstrs(fn, func(ins ssa.Instruction) {
 			c, ok := ins.(*ssa.Call)
 			if !ok {
@@ -80,9 +81,21 @@ func (p *Program) connLoops() []*ConnLoop {
 					cl.Resp = append(cl.Resp, c)
 				}
 			}
-			for _, a := range c.Common().Args {
-				if ex, ok := strip(a).(*ssa.Extract); ok && ex.Tuple == next && ex.Index == 0 && cl.Handle == nil {
-					cl.Handle = c
+			for i, a := range c.Common().Args {
+				if ex, ok := strip(a).(*ssa.Extract); ok && ex.Tuple == next && ex.Index == 0 {
+					// the handle call is the one that takes the request as an argument and answers with
+					// a message; a method of the message itself (IsArray, DebugString, a summary for a
+					// log line) only looks at it and is the handle only if nothing else is
+					score := 1
+					if !(i == 0 && c.Common().Signature().Recv() != nil && strings.HasPrefix(fnPkgPath(callee), pkgProto)) {
+						score = 2
+						if tup, isT := c.Type().(*types.Tuple); isT && tup.Len() == 2 && isErrorType(tup.At(1).Type()) && isProtoMsgOrArray(tup.At(0).Type()) {
+							score = 3
+						}
+					}
+					if score > handleScore {
+						cl.Handle, handleScore = c, score
+					}
 				}
 			}
 		})
@@ -333,6 +346,12 @@ func (p *Program) executors() (list []Executor, unresolved []*ssa.Call) {
 				ef = x
 			case *ssa.Call:
 				ef, freeConst, freeArg = factoryClosureArgs(x)
+			}
+			if !okN && ef == nil && apiParam(args[1]) && apiParam(args[2]) {
+				// an exported function forwarding its own (name, executor) parameters to the
+				// registration API (WithExecutor(name, exec) beside RegisterExexutor): the
+				// application's registration, made outside the repository like any other
+				return
 			}
 			if !okN || ef == nil {
 				unresolved = append(unresolved, c)
@@ -712,4 +731,54 @@ func isBookkeepingFn(f *ssa.Function) bool {
 		}
 	})
 	return ok
+}
+
+// apiParam: the value is a parameter of an exported function or method, possibly seen from a
+// closure of that function through a captured variable.
+func apiParam(v ssa.Value) bool {
+	for k := 0; k < 4; k++ {
+		if u, ok := v.(*ssa.UnOp); ok && u.Op == token.MUL {
+			v = u.X
+			continue
+		}
+		break
+	}
+	switch x := v.(type) {
+	case *ssa.Parameter:
+		f := x.Parent()
+		return f != nil && f.Object() != nil && f.Object().Exported()
+	case *ssa.FreeVar:
+		inner := x.Parent()
+		outer := inner.Parent()
+		if outer == nil {
+			return false
+		}
+		idx := -1
+		for i, fv := range inner.FreeVars {
+			if fv == x {
+				idx = i
+			}
+		}
+		found := false
+		allInstrs(outer, func(ins ssa.Instruction) {
+			mc, ok := ins.(*ssa.MakeClosure)
+			if !ok || mc.Fn != ssa.Value(inner) || idx < 0 || idx >= len(mc.Bindings) {
+				return
+			}
+			b := mc.Bindings[idx]
+			if al, isAl := b.(*ssa.Alloc); isAl {
+				if sv := singleStore(al); sv != nil {
+					b = sv
+				}
+			}
+			if apiParam(b) {
+				found = true
+			}
+		})
+		return found
+	}
+	if s := strip(v); s != v {
+		return apiParam(s)
+	}
+	return false
 }
